@@ -62,6 +62,19 @@ func qn(name string) string {
 	return name
 }
 
+// nsRebind: set by the replayer for the fifth rendering - every other element below the root binds the prefixes again,
+// to URIs of its own; the qualified names (what xpaths see) stay what they are, what is in scope changes from element
+// to element
+var nsRebind = false
+
+func nsRebinds(i int) string {
+	out := ""
+	for _, d := range strings.Fields(nsDecls()) {
+		out += " " + strings.Replace(d, `"urn:`, `"urn:`+fmt.Sprint(i)+"-", 1)
+	}
+	return out
+}
+
 // nsDecls: xmlns declarations for every prefix the current nsMap uses (put on the root element)
 func nsDecls() string {
 	seen := map[string]bool{}
@@ -102,6 +115,8 @@ func (d *sdoc) xml(i int, sb *strings.Builder) {
 	sb.WriteString("<" + qn(d.Nm[i-1]))
 	if d.Par[i-1] == 0 {
 		sb.WriteString(nsDecls())
+	} else if nsRebind && i%2 == 0 {
+		sb.WriteString(nsRebinds(i))
 	}
 	if d.At[i-1] != "" {
 		sb.WriteString(` ` + qn("k") + `="` + xmlEsc(valOf(d.At[i-1], richDocs)) + `"`)
@@ -332,10 +347,12 @@ func c04Replay(args []string) int {
 		if e := json.Unmarshal(line, &c); e != nil {
 			return e
 		}
-		for vi, rich := range []bool{false, true, false, false} {
+		for vi, rich := range []bool{false, true, false, false, false} {
 			richDocs = rich
-			// renderings 3 and 4: qualified names - b shares a's local name under another prefix; everything prefixed
-			nsMap = []map[string]string{nil, nil, {"b": "p:a"}, {"a": "p:a", "b": "q:a", "k": "q:k"}}[vi]
+			// renderings 3 and 4: qualified names - b shares a's local name under another prefix; everything prefixed;
+			// rendering 5: the same with prefixes bound again on inner elements
+			nsMap = []map[string]string{nil, nil, {"b": "p:a"}, {"a": "p:a", "b": "q:a", "k": "q:k"}, {"a": "p:a", "b": "q:a", "k": "q:k"}}[vi]
+			nsRebind = vi == 4
 			xmlText, xp := c.D.renderXML(), c.X.renderV(rich)
 			var exp, expSel [][]string
 			for _, i := range c.Out {
@@ -407,7 +424,7 @@ func c04Replay(args []string) int {
 			}
 			sum.sample(M{"xml": xmlText, "xpath": xp, "expected": exp})
 		}
-		richDocs, nsMap = false, nil
+		richDocs, nsMap, nsRebind = false, nil, false
 		return nil
 	})
 	if err != nil {
